@@ -191,6 +191,21 @@ def _union_update(concepts):
 ITEMS['union_update'] = _union_update
 
 
+def _many_conflicts(concepts):
+    a = concepts.Definition(['zo', 'ya', 'xe', 'wu'], ['pc', 'pa', 'pb', 'pd'],
+                            [(1, 0, 1, 0), (0, 1, 0, 1), (1, 1, 0, 0), (0, 0, 1, 1)])
+    b = concepts.Definition(['wu', 'xe', 'ya', 'zo', 'vi'], ['pd', 'pb', 'pa', 'pc', 'pe'],
+                            [(0, 0, 1, 1, 1), (1, 1, 0, 0, 0), (0, 1, 0, 1, 1), (1, 0, 1, 0, 0), (1, 1, 1, 1, 1)])
+    out = []
+    for f in (lambda: a.union(b), lambda: a.intersection(b), lambda: b | a, lambda: a.union_update(b),
+              lambda: b.intersection_update(a)):
+        out.append(_exc(lambda: _snap(f()) if f() is not None else None))
+    return out + _snap(a) + _snap(b)
+
+
+ITEMS['many_conflicts'] = _many_conflicts
+
+
 def prepare(concepts, name):
     return PRE[name](concepts) if name in PRE else None
 
